@@ -7,6 +7,7 @@ import (
 	"go.flow.arcalot.io/pluginsdk/schema"
 	"io"
 	"os"
+	"strings"
 	"sync"
 	"time"
 )
@@ -120,7 +121,7 @@ closeLoop:
 				MessageTypeError,
 				errorSent.RunID,
 				ErrorMessage{
-					Error:       errorSent.Err.Error(),
+					Error:       validErrorText(errorSent.Err),
 					StepFatal:   errorSent.StepFatal,
 					ServerFatal: errorSent.ServerFatal,
 				},
@@ -162,7 +163,7 @@ closeLoop:
 			MessageTypeError,
 			errorSent.RunID,
 			ErrorMessage{
-				Error:       errorSent.Err.Error(),
+				Error:       validErrorText(errorSent.Err),
 				StepFatal:   errorSent.StepFatal,
 				ServerFatal: errorSent.ServerFatal,
 			},
@@ -425,4 +426,11 @@ func (s *atpServerSession) sendInitialMessagesToClient() error {
 		return fmt.Errorf("failed to CBOR-encode schema (%w)", err)
 	}
 	return nil
+}
+
+// validErrorText returns the error's text as valid UTF-8. The text may quote anything (a panic value, an output
+// ID invented by a step); a CBOR text string with invalid UTF-8 is refused by the client's decoder, which would
+// make the only message that ends a run unreadable.
+func validErrorText(err error) string {
+	return strings.ToValidUTF8(err.Error(), "\uFFFD")
 }
